@@ -344,18 +344,55 @@ def own_rule(ctx, only_module: str | None = None, rule: str = "C10.own", fields=
     repo = ctx.repo
     PRIMITIVE = "aspire.utils:update_at_indices"  # the write primitive itself; every caller is checked instead
     n_sinks = 0
+    full = {}
+
+    def _full(f):
+        if f.ident not in full:
+            full[f.ident] = own.analyse_full(f)
+        return full[f.ident]
+
+    def handed_over(f, pname):
+        """A private helper that writes into its parameter: every call site in the package must pass an array the caller owns.
+        -> (number of call sites, [callers that pass a borrowed array])"""
+        if not f.name.startswith("_") or f.name.startswith("__"):
+            return 0, []
+        a = f.node.args
+        pos = [x.arg for x in a.posonlyargs + a.args]
+        is_method = f.cls is not None and not any(getattr(d, "id", None) == "staticmethod" for d in f.node.decorator_list)
+        if pname not in pos:
+            return 0, []
+        idx = pos.index(pname) - (1 if is_method else 0)
+        sites, bad = 0, []
+        for g in repo.all_functions():
+            for cname, recv, sts, kws in _full(g).calls:
+                if cname != f.name or (is_method and recv is None) or (not is_method and recv is not None):
+                    continue
+                sites += 1
+                st = kws.get(pname, sts[idx] if 0 <= idx < len(sts) else None)
+                if st != own.OWNED:
+                    bad.append(g.ident)
+        return sites, bad
+
     for f in repo.all_functions():
         if f.ident == PRIMITIVE or (only_module is not None and not f.ident.startswith(only_module + ":")):
             continue
-        for node, desc, st, name, origin in own.analyse(f, with_origin=True):
+        o = _full(f)
+        for i, (node, desc, st, name) in enumerate(o.sinks):
+            origin = o.origin.get(name)
             if st == own.ELEMENT:
                 continue  # an item of a container (e.g. an HDF5 dataset looked up by name): not an array of the caller's
             if fields is not None and origin is not None and origin not in fields:
                 continue
             n_sinks += 1
-            ctx.decide(st == own.OWNED, rule, f.ident, loc_of(f, node), f"{desc}: the array written into was created in this function (copy / new array)",
+            note = ""
+            if st == own.BORROWED and o.sink_root.get(i) is not None:
+                sites, bad = handed_over(f, o.sink_root[i])
+                if sites and not bad:
+                    st = own.OWNED
+                    note = f" (the array is parameter `{o.sink_root[i]}` of this private helper; each of its {sites} call site(s) passes an array the caller created)"
+            ctx.decide(st == own.OWNED, rule, f.ident, loc_of(f, node), f"{desc}: the array written into was created in this function (copy / new array){note}",
                        f"{desc} writes into `{name}`, which may be (a view of) an argument or attribute: the caller's array -- e.g. the coordinates of a population whose "
-                       "log-densities are cached, or the stored log-weights of a sample set -- is changed in place", disc=f"{name}|{sum(1 for x in own.analyse(f) if x[0].lineno < node.lineno)}")
+                       "log-densities are cached, or the stored log-weights of a sample set -- is changed in place", disc=f"{name}|{sum(1 for x in o.sinks if x[0].lineno < node.lineno)}")
     if only_module is None:
         ctx.floor("in-place array writes analysed", n_sinks, 10)
     return n_sinks
@@ -403,9 +440,13 @@ MUTANTS += [
       "x = self.xp.atleast_2d(x)\n        log_abs_det_jacobian = self.xp.zeros(len(x), device=self.device)\n        if self.affine_transform:", "C10.own"),
     M("fit writes into the fitting data", _T, "x = copy_array(x, xp=self.xp)\n        if self.periodic_parameters:", "if self.periodic_parameters:", "C10.own"),
     M("fit copies only without periodic parameters", _T, "x = copy_array(x, xp=self.xp)\n        if self.periodic_parameters:", "if not self.periodic_parameters:\n            x = copy_array(x, xp=self.xp)\n        if self.periodic_parameters:", "C10.own"),
+    M("private helper writes into an array its caller did not copy", _T, "y, log_j_bounded = self._bounded_transform.forward(\n                x[..., self.bounded_mask]\n            )\n            x = update_at_indices(x, (slice(None), self.bounded_mask), y)\n            log_abs_det_jacobian += log_j_bounded", "x, log_j_bounded = self._put_bounded(x, self._bounded_transform.forward)\n            log_abs_det_jacobian += log_j_bounded",
+      within="CompositeTransform", more=[("def forward(self, x):\n        x = copy_array(x, xp=self.xp)", "def _put_bounded(self, x, func):\n        y, log_j = func(x[..., self.bounded_mask])\n        x = update_at_indices(x, (slice(None), self.bounded_mask), y)\n        return x, log_j\n\n    def forward(self, x):\n        x = self.xp.asarray(x)")], expect="C10.own"),
     M("nan patch written into the cached likelihood", "src/aspire/samplers/smc/base.py", "log_prob = update_at_indices(\n            log_prob, self.xp.isnan(log_prob), -self.xp.inf\n        )", "update_at_indices(samples.log_likelihood, self.xp.isnan(log_prob), -self.xp.inf)", "C10.own"),
 ]
 NEUTRALS = [
+    M("bounded step through a private helper that writes into the caller's working copy", _T, "y, log_j_bounded = self._bounded_transform.forward(\n                x[..., self.bounded_mask]\n            )\n            x = update_at_indices(x, (slice(None), self.bounded_mask), y)\n            log_abs_det_jacobian += log_j_bounded", "x, log_j_bounded = self._put_bounded(x, self._bounded_transform.forward)\n            log_abs_det_jacobian += log_j_bounded",
+      within="CompositeTransform", more=[("def forward(self, x):\n        x = copy_array(x, xp=self.xp)", "def _put_bounded(self, x, func):\n        y, log_j = func(x[..., self.bounded_mask])\n        x = update_at_indices(x, (slice(None), self.bounded_mask), y)\n        return x, log_j\n\n    def forward(self, x):\n        x = copy_array(x, xp=self.xp)")]),
     M("pool map through an order-preserving helper", "src/aspire/utils.py", "self.original_log_likelihood, map_fn=self.pool.map", "self.original_log_likelihood, map_fn=self._ordered_map",
       more=[("def __enter__(self):\n        self.original_log_likelihood", "def _ordered_map(self, fn, iterable):\n        return list(self.pool.imap(fn, iterable))\n\n    def __enter__(self):\n        self.original_log_likelihood")]),
     M("checkpoint dataset through a local", "src/aspire/utils.py", "target[dsetname][:] = bdata", "dset = target[dsetname]\n    dset[:] = bdata"),
